@@ -75,7 +75,7 @@ func sortsParam(fn *ssa.Function, k int) bool {
 	}
 	var sorts []ssa.Instruction
 	eachInstr(fn, func(_ *ssa.BasicBlock, in ssa.Instruction) {
-		if cc, ok := callIs(in, "sort", "", "Float64s"); ok && cc.Args[0] == fn.Params[k] {
+		if cc, ok := ascendingSortCall(in); ok && cc.Args[0] == fn.Params[k] {
 			sorts = append(sorts, in)
 		}
 	})
@@ -166,7 +166,7 @@ func c18Sorted(c *Ctx, p *Prog, fns []*ssa.Function, inScope func(*ssa.Function)
 					return
 				}
 				sorted := false
-				if cc, ok := callIs(in2, "sort", "", "Float64s"); ok && (cc.Args[0] == arg || sameValue(cc.Args[0], arg)) {
+				if cc, ok := ascendingSortCall(in2); ok && (cc.Args[0] == arg || sameValue(cc.Args[0], arg)) {
 					sorted = true
 				}
 				if sc := c2.Call.StaticCallee(); sc != nil {
@@ -193,7 +193,7 @@ func c18Sorted(c *Ctx, p *Prog, fns []*ssa.Function, inScope func(*ssa.Function)
 			continue
 		}
 		eachInstr(fn, func(b *ssa.BasicBlock, in ssa.Instruction) {
-			cc, ok := callIs(in, "sort", "", "Float64s")
+			cc, ok := ascendingSortCall(in)
 			if !ok {
 				return
 			}
